@@ -138,6 +138,9 @@ class SymRange:
         for a in (start, stop, step):
             if not sym.sym_isinstance(a, int):
                 raise TypeError("'%s' object cannot be interpreted as an integer" % sym.tag(a))
+        # range() stores operator.index() of its arguments: a bool becomes the int 0 / 1
+        start, stop, step = (a._as_int() if isinstance(a, sym.SymBool) else int(a) if type(a) is bool else a
+                             for a in (start, stop, step))
         if step == 0:
             raise ValueError("range() arg 3 must not be zero")
         self.start, self.stop, self.step = start, stop, step
